@@ -153,6 +153,7 @@ func (u *controlUnit) handleRunner(ctx *risc.Context, cycle int, runner *risc.In
 		u.pushedRunnersInCurrentCycle[runner] = true
 		log.Infoi(ctx, "CU", runner.Runner.InstructionType(), runner.Pc, "forward runner on %s (source %d)", register, previousRunner.Pc/4)
 		u.forwarding++
+		ctx.VerifProbe(risc.VerifProbeForward)
 		return true, true
 	}
 
